@@ -94,13 +94,13 @@ import Blots.Gen.Builtins
                             ~ return_statement ~ (WHITESPACE | plain_newline)* ~ "}" }
 
   THE FRAGMENT.  Of `term` the alternatives modelled are, in grammar order,
-      conditional | do_block | lambda | list | record | bool | string | null | identifier
-        | number | nested_expression
-  with `number` restricted to the subset ASCII_DIGIT+ of `decimal_number` (no sign, no `_`
+      conditional | do_block | lambda | assignment | list | record | bool | string | null
+        | identifier | number | nested_expression
+  (`assignment = !{ identifier ~ "=" ~ expression }`, non-atomic) with `number` restricted to the subset ASCII_DIGIT+ of `decimal_number` (no sign, no `_`
   groups, no fraction, no exponent, no `0b` / `0x` form); `postfix_op` completely.
   The model answers what pest answers on every text on which the alternatives left out cannot
   match at any term position it reaches:
-    * input_reference needs `#`; assignment `=` (not `==` / `=>`) after an identifier;
+    * input_reference needs `#`;
     * a digit run followed by `_`digit, `.`digit, `e`/`E`[sign]digit, or starting `0b` / `0x`,
       or a sign directly in front of a digit where a term is expected (`+1`), is a longer
       `number` for pest.
@@ -483,6 +483,16 @@ def retHead (cs : List Char) : Option (List Char) :=
   | some r => wsPlus r
   | none => none
 
+/-- the start of `assignment = !{ identifier ~ "=" ~ expression }` (non-atomic: `skip` between
+    its parts): the name and where the expression starts -/
+def asgHead (cs : List Char) : Option (String × List Char) :=
+  match identifier cs with
+  | some r =>
+    (match skipWs r with
+     | '=' :: r' => some (String.ofList (consumed cs r), skipWs r')
+     | _ => none)
+  | none => none
+
 /-- a statement of a do-block that is an expression becomes an item without comments (the
     conversion without `preserve_comments`); a comment statement is dropped -/
 def consStmt (oe : Option Expr) (more : List Item) : List Item :=
@@ -534,8 +544,8 @@ def operandR (_lam : Bool) : Nat → List Char → Res (List PItem × List Char)
        | .out => .out)
     | .fail => .fail
     | .out => .out
-/-- `term` (fragment): `conditional` first, then `do_block`, then `lambda` — when one of them
-    does not match, the following alternatives are tried at the same position -/
+/-- `term` (fragment): `conditional` first, then `do_block`, then `lambda`, then `assignment` —
+    when one of them does not match, the following alternatives are tried at the same position -/
 def termR : Nat → List Char → Res (Expr × List Char)
   | 0, _ => .out
   | fuel + 1, cs =>
@@ -547,7 +557,11 @@ def termR : Nat → List Char → Res (Expr × List Char)
        | .fail =>
          (match lamR fuel cs with
           | .ok x => .ok x
-          | .fail => term2R fuel cs
+          | .fail =>
+            (match asgR fuel cs with
+             | .ok x => .ok x
+             | .fail => term2R fuel cs
+             | .out => .out)
           | .out => .out)
        | .out => .out)
     | .out => .out
@@ -654,7 +668,22 @@ def lamR : Nat → List Char → Res (Expr × List Char)
        | .fail => .fail
        | .out => .out)
     | none => .fail
-/-- the alternatives of `term` behind `lambda`: `list`, `record`, the word / literal alternatives,
+/-- `assignment = !{ identifier ~ "=" ~ expression }` : the value is an `expression` (also inside
+    a lambda body) -/
+def asgR : Nat → List Char → Res (Expr × List Char)
+  | 0, _ => .out
+  | fuel + 1, cs =>
+    match asgHead cs with
+    | some (n, r) =>
+      (match exprR false fuel r with
+       | .ok (its, r') =>
+         (match prattParse its with
+          | some e => .ok (.assign n e, r')
+          | none => .fail)
+       | .fail => .fail
+       | .out => .out)
+    | none => .fail
+/-- the alternatives of `term` behind `assignment`: `list`, `record`, the word / literal alternatives,
     `nested_expression`, converted as `pairs_to_expr` does (a nested expression by the Pratt
     parser on its items) -/
 def term2R : Nat → List Char → Res (Expr × List Char)
